@@ -907,6 +907,53 @@ func (c *Ctx) c14KeyTypes(f *ircFacts) {
 		})
 	}
 	r.Floor("C14.M6", 3)
+	// the nickname case-mapping table maps single characters to single characters (RFC 2812: {}| are the lower case of []\):
+	// an entry whose key is longer than one byte (e.g. a raw-string `\\`) never matches, so that character is not folded
+	if pkg := c.P.Pkg("ircserver"); pkg != nil {
+		n := 0
+		for _, file := range pkg.Syntax {
+			ast.Inspect(file, func(nd ast.Node) bool {
+				vs, ok := nd.(*ast.ValueSpec)
+				if !ok {
+					return true
+				}
+				for _, val := range vs.Values {
+					call, ok := ast.Unparen(val).(*ast.CallExpr)
+					if !ok {
+						continue
+					}
+					fn := astx.Callee(pkg.TypesInfo, call)
+					if fn == nil || fn.FullName() != "strings.NewReplacer" {
+						continue
+					}
+					used := false
+					// only the replacer NickToLower / ChanToLower use
+					for _, name := range vs.Names {
+						obj := pkg.TypesInfo.Defs[name]
+						for _, fi := range c.P.FuncsIn("ircserver") {
+							if nm := shortName(fi); (nm == "NickToLower" || nm == "ChanToLower") && fi.Body() != nil && astx.Mentions(fi.Info(), fi.Body(), obj) {
+								used = true
+							}
+						}
+					}
+					if !used {
+						continue
+					}
+					n++
+					okAll := len(call.Args) > 0 && len(call.Args)%2 == 0
+					for _, a := range call.Args {
+						if s, ok := astx.ConstString(pkg.TypesInfo, a); !ok || len(s) != 1 {
+							okAll = false
+						}
+					}
+					r.Check(okAll, "C14.M6", "ircserver."+vs.Names[0].Name, "case mapping maps single characters", c.P.Pos(call.Pos()), "every argument of strings.NewReplacer is a one-byte constant",
+						"the nickname case-mapping table contains an entry that is not a single character: that character is no longer folded, so two sessions can own nicknames that are equal under IRC case mapping")
+				}
+				return true
+			})
+		}
+		r.Check(n >= 1, "C14.M6", "ircserver", "case-mapping table found", "-", itoa(n), "NickToLower no longer uses a strings.Replacer table: shape not recognised")
+	}
 }
 
 // lowerProvenance: e is (a range variable over a slice whose elements are) string(k) with k of the lower-case key type, or <X>ToLower(...).
